@@ -3,7 +3,7 @@
 (* publisher, NC subscribers, every interleaving of                            *)
 (*   Commit | Drain | Subscribe(fresh, resume, via cache) | Next | Unsubscribe  *)
 (*   | cache expiry | ACL change | Restore.                                     *)
-(* StreamMC_*.cfg check the properties for the variant selected by G;          *)
+(* StreamMC_*.cfg check the properties for the variant selected by GGap/GRestore;*)
 (* StreamGen_*.cfg print every transition's shortest history (schedules that    *)
 (* the harness h-stream imposes on the real publisher).                         *)
 EXTENDS Stream, Json
@@ -11,10 +11,12 @@ EXTENDS Stream, Json
 CONSTANTS NC,            \* number of subscribers
           MaxCommits, MaxSubs, MaxRestores,
           Profile,       \* "health" | "mixed"
-          G,             \* FALSE: the code as it is ; TRUE: property-conforming variant
+          GGap, GRestore, \* FALSE: the code as it is ; TRUE: property-conforming variant (Stream.tla GAP / RESTORE)
           Ttls           \* subset of BOOLEAN: snapshot cache off / on
 
 VARIABLES st, hist
+
+G == [gap |-> GGap, restore |-> GRestore]
 
 H == "ServiceHealth"
 C == "ServiceHealthConnect"
@@ -34,10 +36,16 @@ WritesFor ==
   CASE Profile = "health" -> {Put("a", "web", ""), Put("b", "web", ""), Put("a", "db", ""), Del("a"), Del("b")}
     [] Profile = "mixed"  -> {Put("a", "web", ""), Put("p", "px", "web"), Del("p"), PutCE("web"), DelCE("web"), Acl("t1")}
     [] Profile = "acl"    -> {Put("a", "web", ""), Del("a"), Acl("t1"), Acl("t2")}
+    [] Profile = "one"    -> {Put("a", "web", ""), Put("b", "web", ""), Del("a")}
+    [] Profile = "conn"   -> {Put("a", "web", ""), Put("p", "px", "web"), Del("p")}
+    [] Profile = "wild"   -> {PutCE("web"), PutCE("db"), DelCE("web")}
 SubjectsFor ==
   CASE Profile = "health" -> {Key(H, "web"), Key(H, "db")}
     [] Profile = "mixed"  -> {Key(H, "web"), Key(C, "web"), Key(R, "web"), Key(R, WILD)}
     [] Profile = "acl"    -> {Key(H, "web")}
+    [] Profile = "one"    -> {Key(H, "web")}
+    [] Profile = "conn"   -> {Key(C, "web"), Key(H, "px")}
+    [] Profile = "wild"   -> {Key(R, "web"), Key(R, WILD)}
 Tok(c) == IF c = 1 THEN "t1" ELSE "t2"
 
 KeysOf(w) ==
@@ -76,7 +84,7 @@ Q(store, ts, gidx) == [idx |-> Qidx(store, ts, gidx), rows |-> SetToSeq(RowSet(s
 
 ---------------------------------------------------------------------------
 Clients == 1..NC
-Live(x) == x.state \in {"open", "acl", "force"}
+Live(x) == x.live
 
 Init ==
   /\ \E ttl \in Ttls :
@@ -105,9 +113,9 @@ Drain ==
 Subscribe(c, ts, from) ==
   LET x == st.cl[c]
       fromidx == IF from = "resume" THEN x.vidx ELSE 0
-  IN /\ x.state \in {"none", "unsub"}
+  IN /\ ~x.live
      /\ st.ns[c] < MaxSubs
-     /\ from = "resume" => (x.state = "unsub" /\ Same(x, ts) /\ x.vidx > 0)
+     /\ from = "resume" => (x.state # "none" /\ Same(x, ts) /\ x.vidx > 0)
      /\ st' = [SubscribeOp(st, c, ts.topic, ts.subj, Tok(c), fromidx, Q(st.store, ts, st.idx))
                  EXCEPT !.ns[c] = @ + 1, !.mustclose = @ \ {c}]
      /\ hist' = Append(hist, [t |-> "sub", c |-> c, topic |-> ts.topic, subj |-> ts.subj, tok |-> Tok(c), from |-> from])
@@ -156,7 +164,7 @@ TsOf(x) == Key(x.topic, x.subj)
 RowsAt(i, x) == RowSet(st.sh[IF i > st.idx THEN st.idx ELSE i], TsOf(x))
 
 \* after each delivery the view equals the direct query at the delivered index
-InvViewExact == \A c \in Clients : st.cl[c].state = "open" => ViewExact(st.cl[c], RowsAt(st.cl[c].vidx, st.cl[c]))
+InvViewExact == \A c \in Clients : st.cl[c].state = "open" => ViewExact(st.cl[c], {RowsAt(st.cl[c].vidx, st.cl[c])})
 \* no committed change is skipped
 InvNoSkip == \A c \in Clients : NoSkip(st, st.cl[c], RowSet(st.store, TsOf(st.cl[c])))
 \* delivered indexes never decrease within a subscription
